@@ -403,6 +403,57 @@ pub fn decode_n_notime(st: &State, t: &mut Toks) -> PResult<String> {
     decode_n_on(st, t, true)
 }
 
+/// SD2 <dict> <k1> <rscript1> <k2> <rscript2>: two streams decoded side by side by two futures of ONE thread (`join!`): wherever
+/// one of them is not ready, the other goes on.  Output: the two SD observations, separated by " || ".
+pub fn decode_two(st: &State, t: &mut Toks) -> PResult<String> {
+    let dict = st.dicts.get(t.next()?).ok_or_else(|| "unknown dict".to_string())?.clone();
+    let mut parts = Vec::new();
+    for _ in 0..2 {
+        let k = t.usize_dec()?;
+        let rs = parse_rscript(t)?;
+        parts.push((k, rs));
+    }
+    let outs: Vec<Arc<Mutex<String>>> = (0..2).map(|_| Arc::new(Mutex::new(String::from("SD")))).collect();
+    let shs: Vec<Arc<Mutex<Shared>>> = (0..2).map(|_| Arc::new(Mutex::new(Shared::default()))).collect();
+    let mut futs = Vec::new();
+    for (i, (k, rs)) in parts.into_iter().enumerate() {
+        let dict = Arc::clone(&dict);
+        let out = Arc::clone(&outs[i]);
+        let sh = Arc::clone(&shs[i]);
+        let mut stream = ScriptStream::new(rs, VecDeque::new(), Arc::clone(&sh));
+        futs.push(async move {
+            for _ in 0..k {
+                let r = Codec::decode(&mut stream, Arc::clone(&dict)).await;
+                let mut o = out.lock().unwrap();
+                match r {
+                    Ok(m) => {
+                        o.push_str(" [OK ");
+                        obs_msg(&mut o, &m);
+                    }
+                    Err(e) => {
+                        o.push_str(if is_eof(&e) { " [EOF" } else { " [ERR" });
+                    }
+                }
+                let _ = write!(o, " @{}]", sh.lock().unwrap().consumed);
+            }
+        });
+    }
+    let f2 = futs.pop().unwrap();
+    let f1 = futs.pop().unwrap();
+    let res = run_to_end(async move {
+        tokio::join!(f1, f2);
+    });
+    let mut o = format!("{} || {}", outs[0].lock().unwrap(), outs[1].lock().unwrap());
+    match res {
+        Ok(Some(())) => {}
+        Ok(None) => o.push_str(" HANG"),
+        Err(p) => {
+            let _ = write!(o, " [PANIC] {}", p.replace('\n', " "));
+        }
+    }
+    Ok(o)
+}
+
 /// SDX <dict> <k> <rscript>: as SD, without any runtime: the future is polled by hand, every poll on a FRESH OS thread (a task of a
 /// work-stealing runtime resumes on whichever worker picks it up).  Scripts with timed pauses are not run this way.
 pub fn decode_n_hopping(st: &State, t: &mut Toks) -> PResult<String> {
